@@ -1,46 +1,27 @@
 #!/usr/bin/env python3
-"""Writes /verif/MANIFEST.json from the table below (kept in one place so it is always valid)."""
+"""Writes /verif/MANIFEST.json from tools/claims/Cxx.json (one file per claimed property:
+{"text", "design_ref", "note", "technique"}) so the manifest is always valid and merges stay trivial.
+Properties without a claim file are listed under not_applicable with the reason in NOT_YET or
+tools/claims/Cxx.na (a one-line reason)."""
 import json
 import os
 
 VERIF = os.path.dirname(os.path.dirname(os.path.abspath(__file__)))
 ALL = [f"C{i:02d}" for i in range(1, 21)]
-
-CLAIMED = {
-    "C06": {
-        "text": "Coq theorems about an executable model of ip_pool.go for every prefix /1../30, every base and every alloc/release "
-                "sequence: conservation (free ++ held is a permutation of the pool at every reachable state), addresses strictly "
-                "between network and broadcast, exclusivity, stickiness, exact release, refusal iff nothing is free (then every "
-                "address is held); every interleaving of the atomic methods is an op sequence, so the invariant covers all schedules. "
-                "Tie: differential run (results, FIFO free list, inventory) incl. all sequences <= 5 (7 thorough) ops on a /30, random "
-                "pools, and a race-detector stress with linearization-free oracles.",
-        "design_ref": "DESIGN.md section 5, C06",
-        "note": "Trusted: Coq kernel, Model/IPPool.v (Go map as unique-key association list; net.ParseCIDR outside the model), overlay "
-                "harness. Atomicity of methods is a syntactic source tie + race detector, not a proof about the Go memory model. No axioms.",
-        "technique": "Coq proof (permutation invariant by induction over operation sequences) + differential correspondence",
-    },
-    "C17": {
-        "text": "Coq theorems over all 2^32 (lo,hi), all ports and both strategies: accepted expansions are exact and pairwise "
-                "disjoint (count = 1 inside, 0 outside), Exact refuses iff a true range is wider than 100, Ternary never refuses, "
-                "products are exact, refused iff unrepresentable, zero masks only for the wildcard denotation. The hand-written "
-                "model is tied to parse_pdr.go by a differential run (vm_compute in Coq vs. the Go functions) on boundary-class "
-                "and random ranges; thorough adds an implementation-side exhaustive tiling sweep of all 2.1e9 ranges.",
-        "design_ref": "DESIGN.md section 5, C17",
-        "note": "Trusted: Coq kernel/vm_compute, the hand-written model Model/PortRange.v (uint16 as N mod 2^16, fuel proved sufficient), "
-                "the overlay harness and case generator. No axioms (Print Assumptions: closed).",
-        "technique": "Coq proof (induction + invariant of the mask loop) with differential model/implementation correspondence",
-    },
-}
-
 NOT_YET = "check not built yet in this revision of /verif (work in progress; see DESIGN.md section 8 for the order)"
 
 
 def main():
+    claimed = {}
+    for p in ALL:
+        f = os.path.join(VERIF, "tools", "claims", p + ".json")
+        if os.path.exists(f):
+            claimed[p] = json.load(open(f))
     checks = []
     for p in ALL:
-        if p not in CLAIMED:
+        if p not in claimed:
             continue
-        c = CLAIMED[p]
+        c = claimed[p]
         checks.append({
             "property_id": p,
             "quick_cmd": f"python3 tools/check.py {p} --tier quick",
@@ -52,25 +33,31 @@ def main():
             "level_note": c["note"],
             "technique": c["technique"],
         })
+    na = []
+    for p in ALL:
+        if p in claimed:
+            continue
+        f = os.path.join(VERIF, "tools", "claims", p + ".na")
+        na.append({"property_id": p, "reason": open(f).read().strip() if os.path.exists(f) else NOT_YET})
     m = {
         "version": 1,
         "setup_cmd": "python3 tools/check.py --setup",
         "hooks": {
             "guard": "verif (Go build tag) + go test -overlay /verif/build/overlay.json; harness sources stay in /verif/harness/go, nothing is added to /repo",
             "enable": "cd /repo && GOPROXY=off GOFLAGS=-mod=mod go test -c -tags verif -vet=off -overlay /verif/build/overlay.json -o /verif/build/pfcpiface.test ./pfcpiface",
-            "baseline_off_cmd": "cd /repo && GOPROXY=off GOFLAGS=-mod=mod go test -vet=off -count=1 ./...",
+            "baseline_off_cmd": "cd /repo && GOPROXY=off GOFLAGS=-mod=mod go test -vet=off -count=1 ./cmd/... ./internal/... ./pfcpiface/... ./pkg/...",
             "source_commits": [],
             "add_only": True,
         },
         "engines": [
             {"name": "coq+harness", "path": "/verif/tools/check.py",
-             "serves_properties": sorted(CLAIMED),
+             "serves_properties": sorted(claimed),
              "kind_free_text": "Coq 8.16.1 development under /verif/coq (models, proofs, property theorems) + differential "
                                "correspondence harness (Go test binary overlaid into package pfcpiface; Python for route_control.py)"},
         ],
         "checks": checks,
         "notes": "All checks: python3 tools/check.py Cxx --tier quick|thorough; VERIF_SEED respected; evidence in /verif/evidence.",
-        "not_applicable": [{"property_id": p, "reason": NOT_YET} for p in ALL if p not in CLAIMED],
+        "not_applicable": na,
     }
     with open(os.path.join(VERIF, "MANIFEST.json"), "w") as f:
         json.dump(m, f, indent=1)
